@@ -36,8 +36,13 @@ def register(S):
                                  ensures={"closed": ("self._closed and not self.active and dict_empty(self.clients)", P17),
                                           "listener_shut_down_and_closed": (LISTENER_DOWN, P17),
                                           "every_tracked_client_visited": ("n_ev('Loop') == 1", P17)},
-                                 raises={"BaseException": {"props": P17, "state": ["self._closed and not self.active"],
-                                                           "modifies": ["self._closed", "self.active", "self.clients"]}},
+                                 # a failing shutdown (a client that is already gone) must not stop the server from closing the
+                                 # others: the only Exceptions that may escape come from a close() call (or from the LISTENER's
+                                 # shutdown raising something that is not an OSError - impossible for a real socket)
+                                 raises={"BaseException": {"props": P17, "state": [
+                                     "self._closed and not self.active",
+                                     "implies(exc_is(exc, 'Exception'), raised_by_attr('close') or (raised_by_attr('shutdown') and n_ev('Loop') == 0))"],
+                                     "modifies": ["self._closed", "self.active", "self.clients"]}},
                                  modifies=["self._closed", "self.active", "self.clients"]),
                },
                loops={0: {"rest": "todo", "modifies": [], "props": P17, "invariant": ["self._closed and not self.active"],
@@ -91,3 +96,24 @@ def register(S):
                raises={"BaseException": {"props": P17, "modifies": ["self._closed", "self.active", "self.clients"], "state": [
                    "n_callees('_authenticate_and_serve_client') == 1 and n_callees('close') == 1", "self._closed and not self.active"]}},
                modifies=["self._closed", "self.active", "self.clients"])
+
+    S.external("log_format", params={"self_arg": "any", "x": "val"}, result="str", note="a log message built with str.format", outcomes=[{"label": "ok"}])
+    # ---- the pool takes a client over: from then on the raw accepted socket is not tracked by the base server any more ----------
+    S.contract(F + "ThreadPoolServer._authenticate_and_build_connection", params={"self": "obj:ThreadPoolServer", "sock": "val"},
+               result="val", trusted=True,
+               note="ASSUMED interface: authenticates (the authenticator may hand back ANOTHER socket object) and wraps the socket in a "
+                    "connection: returns the pair (socket, connection) or raises",
+               ensures={"a_pair": ("is_pair(result) and istuple(result)", P17)}, raises={"BaseException": {"props": P17, "modifies": []}}, modifies=[])
+    S.contract(F + "ThreadPoolServer._add_inactive_connection", params={"self": "obj:ThreadPoolServer", "fd": "val"}, trusted=True,
+               note="ASSUMED interface: registers the descriptor with the poll object", ensures={},
+               raises={"BaseException": {"props": P17, "modifies": []}}, modifies=[])
+    S.contract(F + "ThreadPoolServer._accept_method", params={"self": "obj:ThreadPoolServer", "sock": "val"}, dynamic_errors=True,
+               abstract_calls=dict(LOG, **{"'Failed to serve client for {}, caught exception'.format": "log_format"}),
+               requires=[CONNS_OK], effects={"normal": (0, 9), "raise": (0, 9)},
+               ensures={
+                   # once the pool owns the connection, the socket that accept() put into self.clients is tracked there no longer
+                   # (whatever socket object the authenticator handed back)
+                   "accepted_socket_no_longer_tracked_by_the_base_server": (
+                       "implies(n_callees('_add_inactive_connection') == 1 and n_attr_reads('close') == 0, not haskey(self.clients, sock))", P17)},
+               raises={"BaseException": {"props": P17, "modifies": ["self.fd_to_conn", "self.clients"]}},
+               modifies=["self.fd_to_conn", "self.clients"])
